@@ -10,7 +10,14 @@ Property C15: reported error locations point into the form that failed.
 
 The vocabulary (`locs`, `rlocs`, `LocsIn`, the roles `ident` / `operator` of a position) is in
 `RuschmSpec/Loc.lean`; the helper lemmas are in `RuschmProofs/LocLemmas.lean`. The theorems follow
-the pipeline: macro expansion (3), the evaluator (5), …
+the pipeline: the lexer (1), the reader (2), macro expansion (3), the transformer (4), the
+evaluator (5), library sources (6), `eval_ast` (7, 8), whole programs, and "every run-time error
+carries a position".
+
+Known residue (stated, not hidden): an error raised while READING a library source
+(`LibReadErr`: in the Rust only the lexer's own errors are still located there, because
+`Lexer::without_locations` strips the tokens but not the lexer errors) carries a position of the
+library text, not of the program.
 -/
 import RuschmProofs.LocLemmas
 
@@ -421,6 +428,18 @@ theorem program_error_loc {fuel : Nat} {st st' : State} {text : List Char} {k : 
     l ∈ locs st ∨ (∃ pre, pre <+: text ∧ l = Text.advs pre (1, 1)) ∨ LibReadErr (k, some l) :=
   ProgLoc.evalText_loc h
 
+/-- the program `⏎x` (an unbound variable on line 2) in an interpreter without bindings: the error is
+reported at 2:2, the cursor after the whole text -/
+example : (evalText 9 {} ['\n', 'x']).1 = .error (.unbound, some (2, 2)) ∧
+    Text.advs ['\n', 'x'] (1, 1) = (2, 2) := by
+  have lex_x : Lex.all ['\n', 'x'] = ([⟨.ident "x", some (2, 2)⟩], none) := by
+    simp [Lex.all, Lex.allAux, Lex.next, Lex.skipAtmosphere, Lex.token, Lex.adv, Lex.isWs,
+      Lex.normalIdentifier, Lex.takeRun, Lex.isDigit, Except.map]
+  refine ⟨?_, by decide⟩
+  simp [evalText, evalText.go, Read.ofText, lex_x, Read.nextDatum, Read.advance, Read.currentDatum,
+    Read.fuelFor, Xform.toStatement, Xform.xformFuel, evalAst, evalExprOrDef, Eval.evalExpr, Store.lookup,
+    Store.lookupAux, bind, Except.bind, pure, Statement.loc, Expr.loc, Datum.loc]
+
 /-- For the interpreter as the CLI and the harness build it (`default()` or `new_with_stdlib()`):
 its state holds no position at all, so every position it reports for a program is a cursor inside
 the program text (or stems from reading a user library source). -/
@@ -442,5 +461,63 @@ theorem default_state_unlocated (withHost : Bool) (f : Nat) :
     rw [ProgLoc.default_unlocated]; rfl
   · show unrole (withStdlib f withHost).rlocs = []
     rw [ProgLoc.withStdlib_unlocated]; rfl
+
+/-! ## every run-time error carries a position -/
+
+/-- The reader gives a position to every datum it reads and to every element inside it
+(`Datum.HL`: every car, improper tail and vector element, recursively; only the inner cells of a
+list's spine have none), provided every token has one — and every token of `Lex.all` has. -/
+theorem reader_data_located {s s' : Read.PState} {d : Datum} (h : Read.nextDatum s = .ok (some d, s'))
+    (ht : ∀ t ∈ s.toks, t.loc ≠ none) : d.HL ∧ ∀ t ∈ s'.toks, t.loc ≠ none :=
+  HLoc.nextDatum_hl h ht
+
+theorem lexer_tokens_located (cs : List Char) : ∀ t ∈ (Read.ofText cs).toks, t.loc ≠ none :=
+  HLoc.ofText_tokLoc cs
+
+/-- Macro expansion keeps data located: the expansion of a located macro use is located (built data
+take the position of the use, substituted data are elements of the use). -/
+theorem expansion_located {fuel : Nat} {r : Macro.Rules} {use d : Datum}
+    (h : Macro.transform fuel r use = .ok d) (hu : use.HL) : d.HL :=
+  HLoc.transformRules_hl hu r.rules d h
+
+/-- The statement made from a located datum — through any number of expansions — has a position. -/
+theorem stmt_located {fuel : Nat} {d : Datum} {env env' : Xform.SynEnv} {s : Statement}
+    (h : Xform.toStatement fuel d env = (.ok s, env')) (hd : d.HL) : s.loc ≠ none :=
+  HLoc.stmt_loc_some fuel d hd env s (by rw [h])
+
+/-- EVERY run-time error carries a position: one round of `Interpreter::eval` — read a datum from
+located tokens, transform it, evaluate the statement — never fails in the evaluator without
+reporting a line and a column. -/
+theorem runtime_error_is_located {s s' : Read.PState} {d : Datum} {fuel₀ fuel : Nat}
+    {env env' : Xform.SynEnv} {stmt : Statement} {st st' : State} {k : Err} {loc : Loc}
+    (ht : ∀ t ∈ s.toks, t.loc ≠ none) (hr : Read.nextDatum s = .ok (some d, s'))
+    (hx : Xform.toStatement fuel₀ d env = (.ok stmt, env'))
+    (h : evalAst fuel st stmt = (.error (k, loc), st')) : ∃ l, loc = some l := by
+  have hl := HLoc.evalAst_located h (stmt_located hx (reader_data_located hr ht).1)
+  cases loc with
+  | none => exact absurd rfl hl
+  | some l => exact ⟨l, rfl⟩
+
+/-- For a whole program: if `Interpreter::eval` reports an error WITHOUT a position, the error was
+raised by the reader or by the transformer (a syntax error; or the model ran out of fuel) — never by
+the evaluation of a form. -/
+theorem unlocated_error_is_syntax_stage {fuel : Nat} {st st' : State} {text : List Char} {k : Err}
+    (h : evalText fuel st text = (.error (k, none), st')) : k = .fuel ∨ HLoc.SyntaxStage k := by
+  unfold evalText at h
+  exact HLoc.evalText_go_located fuel _ _ _ _ k st' (HLoc.ofText_tokLoc text) h
+
+/-- the program `()`: an error without position — raised by the transformer (`EmptyCall`) -/
+example : (evalText 9 {} ['(', ')']).1 = .error (.syntax, none) := by
+  have lex_p : Lex.all ['(', ')'] = ([⟨.lparen, some (1, 2)⟩, ⟨.rparen, some (1, 3)⟩], none) := by
+    simp [Lex.all, Lex.allAux, Lex.next, Lex.skipAtmosphere, Lex.token, Lex.adv, Lex.isWs]
+  simp [evalText, evalText.go, Read.ofText, lex_p, Read.nextDatum, Read.advance, Read.currentDatum,
+    Read.fuelFor, Read.listOrPair, Read.listLoop, Read.advanceUnwrap, Datum.withLoc, Xform.toStatement,
+    Xform.xformFuel, Xform.fail, bind, Except.bind, pure, Except.pure]
+
+/-- the data the reader delivers for `(a . (b))`-like texts are located at every element; a bare
+spine cell is not: `(x y)` located at its head only is head-located, its tail `(y)` is not -/
+example : (Datum.pair (.sym "x" (some (1, 2))) (.pair (.sym "y" (some (1, 4))) (.nil none) none) (some (1, 1))).HL ∧
+    ¬ (Datum.pair (.sym "y" (some (1, 4))) (.nil none) none).HL := by
+  simp [Datum.HL, Datum.TL]
 
 end Ruschm.C15
